@@ -23,6 +23,8 @@ ANN_FORMS = {
     'x_kw': [';x=', 'X'],
     'wx_pos': [';', 'N', ';', 'X'],
     'free': [';q=', 'V', ';p=', 'V'],
+    'free_uc': [';Tg=', 'V', ';pKa=', 'V'],      # user-defined symbols are case sensitive and reported as written
+    'free_case': [';a=', 'V', ';A=', 'V'],
 }
 
 
@@ -408,9 +410,9 @@ class C13(core.Prop):
                     elif form == 'wx_pos':
                         d['weight'] = self._num(vals[1])
                         d['chiral'] = vals[3]
-                    elif form == 'free':
-                        d['q'] = vals[1]
-                        d['p'] = vals[3]
+                    elif form.startswith('free'):
+                        d[pieces[0][1:-1]] = vals[1]
+                        d[pieces[2][1:-1]] = vals[3]
                 exp_attr[t.atom] = d
         cl.append(('annotation_atoms', sorted(attrs.keys()) == sorted(exp_attr.keys())))
         if sorted(attrs.keys()) == sorted(exp_attr.keys()):
